@@ -79,10 +79,20 @@ def check_c16(prop, tier, replay):
             if p.returncode != 0:
                 # the engine process died: that is a line of the trace like any other, with what the panic message identifies
                 crashed += 1
-                log("vh %s worker died: %s" % (cmd[1], p.stderr[-400:]))
                 err = p.stderr
+                log("vh %s worker died: %s\n ...\n%s" % (cmd[1], err[:1200], err[-400:]))
+                try:
+                    os.makedirs(os.path.join(vlib.OUT, "replay"), exist_ok=True)
+                    open(os.path.join(vlib.OUT, "replay", "C16-crash-%d.stderr.txt" % crashed), "w").write(err[:400000])
+                except Exception:
+                    pass
                 sig = ""
-                if ("index out of range" in err or "nil pointer dereference" in err) and ("playersAutoIn" in err or ").PlayerJoin(" in err):
+                # the goroutine that crashed is the first of the dump; the recorded finding is a crash INSIDE one of the two
+                # lock-free readers of the player list (auto sit-in completion, PlayerJoin)
+                first = err.split("\n\ngoroutine ", 2)
+                crashed_in = first[1] if len(first) > 1 else err
+                memfault = any(x in err for x in ("index out of range", "nil pointer dereference", "unexpected fault address", "SIGSEGV", "SIGBUS"))
+                if memfault and ("playersAutoIn.func" in crashed_in or ").PlayerJoin(" in crashed_in):
                     sig = "autoin-race-panic"
                 with open(out, "a") as f:
                     f.write(json.dumps({"tr": 0, "n": 999999, "ev": "crash", "procs": 0, "ops": [], "pre": BLANK, "st": BLANK, "smpre": {"seat": []}, "smst": {"seat": []},
